@@ -18,6 +18,7 @@ func init() {
 		pkgs := []*packages.Package{c.Pkg("fp"), c.Pkg("option"), c.Pkg("try"), c.Pkg("either"), c.Pkg("statet"), c.Pkg("seq"), c.Pkg("iterator"), c.Pkg("list")}
 		Short(c, "R-SHORT", pkgs)
 		FoldStop(c, "R-FOLDSTOP", pkgs, 4)
+		LoopStop(c, "R-LOOPSTOP", pkgs)
 		RunOnce(c, "R-RUNONCE", c.Pkg("fp"), 10)
 		SupplyOnce(c, "R-SUPPLYONCE", []*packages.Package{c.Pkg("fp"), c.Pkg("option"), c.Pkg("try"), c.Pkg("either"), c.Pkg("statet"), c.Pkg("future")}, 40)
 		Supplier(c, "R-SUPPLIER", []*packages.Package{c.Pkg("option"), c.Pkg("try"), c.Pkg("either"), c.Pkg("statet"), c.Pkg("future")})
